@@ -8,6 +8,7 @@ import (
 	"io"
 	"os"
 	"runtime"
+	"sort"
 	"strconv"
 )
 
@@ -124,7 +125,15 @@ func NewZlispWithFuncs(funcs map[string]ZlispUserFunction) *Zlisp {
 	env.AddGlobal("null", SexpNull)
 	env.AddGlobal("nil", SexpNull)
 
-	for key, function := range funcs {
+	// in name order, so that every interpreter gives the builtins the
+	// same symbol numbers (symbols compare and hash by number)
+	names := make([]string, 0, len(funcs))
+	for key := range funcs {
+		names = append(names, key)
+	}
+	sort.Strings(names)
+	for _, key := range names {
+		function := funcs[key]
 		sym := env.MakeSymbol(key)
 		env.builtins[sym.number] = MakeUserFunction(key, function)
 		env.AddFunction(key, function)
